@@ -61,41 +61,53 @@ theorem pointwise_disc_items :
       sx.map (digestItem H) = sy.map (digestItem H) →
       Rel2 ItemEquiv ix iy
         ∨ Collision H (Pre.inputsList H (sx.map (·.2)) ++ Pre.inputsList H (sy.map (·.2)))
-  | [], [], [], [], _, _, _, _, _ => by left; simp [Rel2]
-  | [], _ :: _, _, _, h, _, _, _, _ => by simp [Rel2] at h
-  | _ :: _, [], _, _, h, _, _, _, _ => by simp [Rel2] at h
-  | [], [], _, _ :: _, _, h, _, _, _ => by simp [Rel2] at h
-  | _, _ :: _, _, [], _, h, _, _, _ => by simp [Rel2] at h
-  | [], [], [], _ :: _, _, _, _, _, h => by simp at h
-  | _ :: _, _ :: _, [], [], _, _, _, _, h => by simp at h
-  | a :: ix, b :: sx, c :: iy, d :: sy, h1, h2, ha, hb, h => by
-    simp only [Rel2] at h1 h2
-    simp only [List.map_cons, List.cons.injEq, digestItem, Prod.mk.injEq] at h
-    obtain ⟨ga, da⟩ := ha a (by simp)
-    have gc := hb c (by simp)
-    have hrest := pointwise_disc_items ix iy sx sy h1.2 h2.2 (fun x hx => ha x (by simp [hx]))
-      (fun x hx => hb x (by simp [hx])) (by simpa [digestItem] using h.2)
-    have hhead := da c.2 b.2 d.2 ga gc h1.1.2 h2.1.2 h.1.2
-    simp only [List.map_cons, Pre.inputsList, Rel2]
-    rcases hhead with he | hc
-    · rcases hrest with hr | hc'
-      · left
-        refine ⟨⟨?_, he⟩, hr⟩
-        rw [h1.1.1, h2.1.1]; exact h.1.1
-      · right
-        refine Collision.mono H ?_ hc'
-        intro x hx
-        simp only [List.mem_append] at hx ⊢
-        rcases hx with hx | hx
-        · left; right; exact hx
-        · right; right; exact hx
-    · right
-      refine Collision.mono H ?_ hc
-      intro x hx
-      simp only [List.mem_append] at hx ⊢
-      rcases hx with hx | hx
-      · left; left; exact hx
-      · right; left; exact hx
+  | [], iy, sx, sy, h1, h2, _, _, h => by
+    cases sx with
+    | cons _ _ => simp [Rel2] at h1
+    | nil =>
+      cases sy with
+      | cons _ _ => simp at h
+      | nil =>
+        cases iy with
+        | cons _ _ => simp [Rel2] at h2
+        | nil => left; simp [Rel2]
+  | a :: ix, iy, sx, sy, h1, h2, ha, hb, h => by
+    cases sx with
+    | nil => simp [Rel2] at h1
+    | cons b sx =>
+      cases sy with
+      | nil => simp at h
+      | cons d sy =>
+        cases iy with
+        | nil => simp [Rel2] at h2
+        | cons c iy =>
+          simp only [Rel2] at h1 h2
+          simp only [List.map_cons, List.cons.injEq, digestItem, Prod.mk.injEq] at h
+          obtain ⟨ga, da⟩ := ha a (by simp)
+          have gc := hb c (by simp)
+          have hrest := pointwise_disc_items ix iy sx sy h1.2 h2.2 (fun x hx => ha x (by simp [hx]))
+            (fun x hx => hb x (by simp [hx])) (by simpa [digestItem] using h.2)
+          have hhead := da c.2 b.2 d.2 ga gc h1.1.2 h2.1.2 h.1.2
+          simp only [List.map_cons, Pre.inputsList, Rel2]
+          rcases hhead with he | hc
+          · rcases hrest with hr | hc'
+            · left
+              refine ⟨⟨?_, he⟩, hr⟩
+              rw [h1.1.1, h2.1.1]; exact h.1.1
+            · right
+              refine Collision.mono H ?_ hc'
+              intro x hx
+              simp only [List.mem_append] at hx ⊢
+              rcases hx with hx | hx
+              · left; right; exact hx
+              · right; right; exact hx
+          · right
+            refine Collision.mono H ?_ hc
+            intro x hx
+            simp only [List.mem_append] at hx ⊢
+            rcases hx with hx | hx
+            · left; left; exact hx
+            · right; left; exact hx
 
 /-! ### helpers -/
 
@@ -109,7 +121,7 @@ theorem collision_of_ne {i j : Nat} {ps qs : List Pre} (hne : evalPureList H ps 
   simp only [evalPure] at he
   exact ⟨_, by simp [Pre.inputs], _, by simp [Pre.inputs], hne, he⟩
 
-theorem children_sub_left {i j : Nat} {op cl : Bytes} {ps : List Pre} {q : Pre} :
+theorem children_sub_left {i : Nat} {op cl : Bytes} {ps : List Pre} {q : Pre} :
     ∀ x ∈ Pre.inputsList H ps, x ∈ Pre.inputs H (.node i (lit op :: ps ++ [lit cl])) ++ Pre.inputs H q := by
   intro x hx
   rw [inputs_wrap]
